@@ -166,6 +166,12 @@ def end_to_end():
                 b2, n = check_b_links(os.path.join(pb, "doc"), adoc,
                                       {"liba_core": "module/liba_core.html", "shape_t": "type/shape_t.html", "area": "proc/area.html", "make": "proc/make.html"},
                                       {"utils", "vec_t", "norm", "b_mod", "square_t", "work", "helper"}, no_external_on=("proc/local_wins.html",))
+                # names that A's module liba_api re-exports under new names reach the entities of A from B
+                for page, target in (("module/b_api_user.html", "type/shape_t.html"), ("proc/run_it.html", "proc/area.html")):
+                    pp = os.path.join(pb, "doc", page)
+                    text = open(pp, encoding="utf-8").read() if os.path.exists(pp) else ""
+                    if not re.search(r"href=['\"][^'\"]*A/doc/" + re.escape(target), text):
+                        b2.append(f"{page}: no link to A's {target} (the entity B imports from liba_api under its re-exported name)")
                 return bad + b2, n
     finally:
         shutil.rmtree(sb, ignore_errors=True)
@@ -399,7 +405,7 @@ def search(parts=("end_to_end", "broken", "absolute", "remote")):
             bad, n = end_to_end()
             bad = bad or export_with_private_display()
         elif part == "broken":
-            bad = broken_descriptions()
+            bad = broken_descriptions() or second_project_after_a_broken_one()
         elif part == "absolute":
             bad = absolute_local_path()
         elif part == "declarations":
@@ -414,4 +420,44 @@ def search(parts=("end_to_end", "broken", "absolute", "remote")):
             return {"confirmed": True, "input": {"scenario": part, "A": EXT_A if part == "declarations" else A_FILES, "B": EXT_B if part == "declarations" else B_FILES}, "actual": bad[:6],
                     "expected": "links into A exist and name the entity; B's own entities win; a bad description costs only the links",
                     "how": "real FORD runs: A with externalize, then B with external: liba = <A's output>"}
+    return None
+
+
+def second_project_after_a_broken_one():
+    """B lists two external projects; the first has no readable description.  That costs the links into the first one: the links into A (listed second) are all there"""
+    os.makedirs(realrun.TMPROOT, exist_ok=True)
+    sb = tempfile.mkdtemp(dir=realrun.TMPROOT)
+    try:
+        with site.site(A_FILES, META_A, sandbox=sb, proj="A") as (pa, sa):
+            if not sa.startswith("ok"):
+                return [f"building A failed: {sa}"]
+            meta_b = META_B.replace("external: liba = ../A/doc\n", "external: gone = ../missing/doc\n          liba = ../A/doc\n")
+            with site.site(B_FILES, meta_b, sandbox=sb, proj="B") as (pb, sbst):
+                if not sbst.startswith("ok"):
+                    return [f"building B against a missing project and A failed: {sbst[:300]}"]
+                bad, n = check_b_links(os.path.join(pb, "doc"), os.path.join(pa, "doc"),
+                                       {"liba_core": "module/liba_core.html", "shape_t": "type/shape_t.html", "area": "proc/area.html", "make": "proc/make.html"}, set(), no_external_on=("proc/local_wins.html",))
+                return [f"with an unreadable external project listed before A: {b}" for b in bad]
+    finally:
+        shutil.rmtree(sb, ignore_errors=True)
+
+
+def command_line_externalize():
+    """`externalize: true` in the project file, `ford proj.md` on a real command line without the flag: modules.json is written"""
+    import subprocess, sys
+    from harness import loader
+    os.makedirs(realrun.TMPROOT, exist_ok=True)
+    sb = tempfile.mkdtemp(dir=realrun.TMPROOT)
+    try:
+        for k, v in A_FILES.items():
+            os.makedirs(os.path.dirname(os.path.join(sb, k)), exist_ok=True)
+            open(os.path.join(sb, k), "w").write(v)
+        open(os.path.join(sb, "proj.md"), "w").write("---\nproject: A\npreprocess: false\n" + META_A + "---\ntext\n")
+        r = subprocess.run([sys.executable, "-m", "ford", "proj.md"], cwd=sb, env=dict(os.environ, PYTHONPATH=loader.REPO, PYTHONHASHSEED="0"), capture_output=True, text=True, timeout=600)
+        have = os.path.exists(os.path.join(sb, "doc", "modules.json"))
+        if r.returncode != 0 or not have:
+            return {"confirmed": True, "input": {"project file": "externalize: true", "command": "python -m ford proj.md"}, "actual": {"exit": r.returncode, "doc/modules.json written": have},
+                    "expected": {"exit": 0, "doc/modules.json written": True}, "how": "real command-line run in a fresh process"}
+    finally:
+        shutil.rmtree(sb, ignore_errors=True)
     return None
